@@ -15,6 +15,7 @@ CFG = {
     "weights": {"eval": 8, "reeval": 3, "set": 0.6, "clearat": 0.5, "clear": 0.3, "clearall": 0.2},
     "compare": ["values", "log"],
     "maxdepths": [None, None, None, None, 7, 12],
+    "default_p": 0.4,
     "rule": "random programs (2-6 cells, self-recursion and calls to lower cells, references by name and by "
             "attribute path, try/except, raise, None) and histories of 8-16 queries/value edits; distinct by "
             "program+history text; non-trivial = some query was served from the cache (formula log empty for a "
@@ -32,8 +33,12 @@ def oracle(case, recs, out, stats):
     if not has_input:
         # no user-assigned value anywhere: compare with pure recomputation (every cells uncached)
         pure = X.replica_values(case, [r["op"] for r in recs])
+    # the formulas as plain Python functions, called by Python (its own argument binding, no cache, no modelx); the
+    # value edits the live model accepted are kept in a table the functions consult
+    plain = X.plain_world(case)
     for k, rec in enumerate(recs):
         if rec["op"][0] != "eval":
+            plain.apply_edit(rec["op"], rec["impl"] == "ok")
             continue
         a = rec["impl"]
         if not a.startswith("ok"):
@@ -46,6 +51,9 @@ def oracle(case, recs, out, stats):
         refs = [("a fresh model (same edits, no earlier evaluation)", rv)]
         if pure is not None:
             refs.append(("pure recomputation (all cells uncached)", pure[k]))
+        if int(rec["op"][1]) in plain.funcs:
+            stats["oracle_plain_python_queries"] += 1
+            refs.append(("the formulas evaluated as plain Python functions", plain.eval(int(rec["op"][1]), rec["op"][2:])))
         for what, r in refs:
             if r == a:
                 continue
@@ -94,49 +102,120 @@ def _limit_hit(case, upto):
 
 
 def _spellings(case, out, stats):
-    """positional / keyword (any order) / subscription / .value denote the same element"""
+    """every spelling Python admits for the arguments of one element - positional, keyword (any order), mixed,
+    parameters that have their default value left out, subscription, .value - denotes that element: same value, no
+    formula run again, no other element created"""
     impl = ExecImpl(case["cells"], case["refs"], case["n_rn"], None, log=True)
     try:
         for c in case["cells"]:
-            if not c["cached"]:
+            if not c["cached"] or c.get("absent"):
                 continue
             cells = impl.cells[c["id"]]
             n = c["nparams"]
-            args = tuple(range(1, n + 1))
+            dfl = c.get("defaults") or []
+            keys = [tuple(range(1, n + 1))]
+            if dfl:
+                # the defaulted parameters at their default values (they may be left out), and a mix
+                keys.append(tuple(range(1, n - len(dfl) + 1)) + tuple(dfl))
+                if len(dfl) > 1:
+                    keys.append(tuple(range(1, n - len(dfl) + 1)) + (9,) + tuple(dfl[1:]))
+            for args in keys:
+                with quiet():
+                    try:
+                        v0 = cells(*args)
+                    except BaseException:      # noqa: BLE001 (generated formulas raise KeyboardInterrupt too)
+                        continue
+                    impl.log = []
+                    keys0 = set(cells._impl.data)
+                    forms = {}
+                    for label, pos, kw in X.all_spellings(n, dfl, args, limit=10):
+                        forms["call" + label] = (lambda pos=pos, kw=kw: X.spelled_call(cells, pos, kw))
+                        if not kw and n >= 1:
+                            forms["subscript" + label] = (lambda pos=pos: X.spelled_call(cells, pos, {}, True))
+                    if n == 0:
+                        forms["value"] = lambda: cells.value
+                        forms["getitem_empty"] = lambda: cells[()]
+                    for nm, f in forms.items():
+                        try:
+                            v = f()
+                        except BaseException as e:      # noqa: BLE001 (generated formulas raise KeyboardInterrupt too)
+                            out.fail("spelling %s of c%d%r raised %r" % (nm, c["id"], args, e), X.case_json(case))
+                            continue
+                        stats["spellings_checked"] += 1
+                        if v != v0 or impl.log:
+                            out.fail("spelling %s of c%d%r gave %r (positional %r), formulas re-run: %s" % (
+                                nm, c["id"], args, v, v0, impl.log), X.case_json(case))
+                        impl.log = []
+                    if set(cells._impl.data) != keys0:
+                        out.fail("spellings of one element created other elements in c%d: %r" % (
+                            c["id"], set(cells._impl.data) ^ keys0), X.case_json(case))
             with quiet():
                 try:
-                    v0 = cells(*args)
-                except BaseException:      # noqa: BLE001 (generated formulas raise KeyboardInterrupt too)
-                    continue
-                impl.log = []
-                keys0 = set(cells._impl.data)
-                names = ["a%d" % i for i in range(n)]
-                forms = {}
-                forms["kw"] = lambda: cells(**dict(zip(names, args)))
-                forms["kw_reversed"] = lambda: cells(**dict(reversed(list(zip(names, args)))))
-                if n >= 1:
-                    forms["mixed"] = lambda: cells(*args[:1], **dict(list(zip(names, args))[1:]))
-                    forms["getitem"] = lambda: cells[args if n > 1 else args[0]]
-                else:
-                    forms["value"] = lambda: cells.value
-                    forms["getitem_empty"] = lambda: cells[()]
-                for nm, f in forms.items():
-                    try:
-                        v = f()
-                    except BaseException as e:      # noqa: BLE001 (generated formulas raise KeyboardInterrupt too)
-                        out.fail("spelling %s of c%d%r raised %r" % (nm, c["id"], args, e), X.case_json(case))
-                        continue
-                    stats["spellings_checked"] += 1
-                    if v != v0 or impl.log:
-                        out.fail("spelling %s of c%d%r gave %r (positional %r), formulas re-run: %s" % (
-                            nm, c["id"], args, v, v0, impl.log), X.case_json(case))
-                    impl.log = []
-                if set(cells._impl.data) != keys0:
-                    out.fail("spellings of one element created other elements in c%d: %r" % (
-                        c["id"], set(cells._impl.data) ^ keys0), X.case_json(case))
-                cells.clear_all()
+                    cells.clear_all()
+                except BaseException as e:      # noqa: BLE001
+                    # nothing but evaluations happened in this model: the cache and its bookkeeping disagree
+                    out.fail("c%d.clear_all() raised %r in a model in which elements were only evaluated" % (c["id"], e),
+                             X.case_json(case))
+                    break
     finally:
         impl.close()
+
+
+def default_call_cases():
+    """Scenario family "a call made inside a formula denotes the element the same call denotes anywhere": a callee with
+    2-3 parameters of which the last 1-3 have default values that differ from each other; one caller per way of
+    spelling a call - every number of the defaulted parameters supplied (none, some, all), positionally, by keyword in
+    and against parameter order, mixed, one in the middle skipped; the callers and the callee itself (same spellings,
+    from outside) are evaluated in two orders.  Call sites spell the callee by name, or (style "mixed") take turns
+    between the name, a reference holding the cells, and the attribute path."""
+    P0, L = ("p", 0), (lambda i: ("lit", i))
+    cases = []
+    for n, nd in ((2, 1), (2, 2), (3, 2), (3, 3)):
+        req = n - nd
+        dfl = [3, 5, 7][:nd]
+        # the value shows every parameter: a0 + 10 a1 + 100 a2
+        body = P0
+        for i in range(1, n):
+            body = ("add", body, ("mul", ("p", i), L(10 ** i)))
+        callee = {"id": 0, "nparams": n, "defaults": dfl, "body": body}
+        spell = []              # (positional count, keyword indices): arguments are a0 (or 1) for parameter 0, 8, 9 above
+        for k in range(req, n + 1):                     # parameters 0..k-1 supplied
+            for npos in range(0, k + 1):
+                kws = list(range(npos, k))
+                spell.append((npos, kws))
+                if len(kws) > 1:
+                    spell.append((npos, kws[::-1]))
+        for skip in range(max(req, 1), n - 1):          # a defaulted parameter in the middle left out
+            spell.append((skip, [n - 1]))
+            spell.append((0, [n - 1] + list(range(skip))))
+        spell = sorted(set((a, tuple(b)) for a, b in spell))
+
+        def argval(i, top):
+            return ("1" if top else P0) if i == 0 else ((str(7 + i)) if top else L(7 + i))
+        cells = [callee]
+        for npos, kws in spell:
+            pos = [argval(i, False) for i in range(npos)]
+            kw = [(i, argval(i, False)) for i in kws]
+            call = ("callk", 0, pos, kw) if kw else ("call", 0, pos)
+            cells.append({"id": len(cells), "nparams": 1, "body": ("add", call, L(0))})
+        # a chain: the partial call below another cells, and twice in one formula
+        cells.append({"id": len(cells), "nparams": 1,
+                      "body": ("add", ("call", 1 + len(spell) // 2, [P0]), ("call", 0, [P0] + [L(8)] * max(req - 1, n - 2)))})
+        for c in cells:
+            c.update(cached=True, allow_none=False)
+        callers = [["eval", str(c["id"]), "1"] for c in cells[1:]]
+        direct = [["eval", "0"] + [argval(i, True) for i in range(npos)] + ["k%d=%s" % (i, argval(i, True)) for i in kws]
+                  for npos, kws in spell]
+        for style, order, ops in ((None, "callers-first", callers + direct + callers[-1:]),
+                                  (None, "direct-first", direct + callers),
+                                  ("mixed", "interleaved", [x for pair in zip(direct, callers) for x in pair] + callers[-1:]),
+                                  ("mixed", "callers-first", callers + direct[::3])):
+            cs = [dict(c) for c in cells]
+            if style:
+                cs[0]["call_style"] = style
+            cases.append({"cells": cs, "refs": {0: 1, 1: 2, 2: 3, 3: 4}, "n_rn": 2, "maxdepth": None, "ops": ops,
+                          "label": "default-calls/%d params %d defaults/%s/%s" % (n, nd, style or "name", order)})
+    return cases
 
 
 def name_resolution(out, stats):
@@ -190,7 +269,7 @@ def name_resolution(out, stats):
 
 
 def run(ctx, out):
-    stats = X.run_family(ctx, out, CFG, oracle, 150, 2500)
+    stats = X.run_family(ctx, out, CFG, oracle, 150, 2500, structured=default_call_cases())
     name_resolution(out, stats)
     out.coverage["input_distribution"]["name_resolution_scenarios"] = stats["name_resolution_scenarios"]
     out.assumptions.append("Python's own evaluation of arithmetic and inspect.Signature.bind are exercised, not modelled")
